@@ -434,13 +434,18 @@ func (c *Ctx) heapGet(st *State, key string, elem types.Type) string {
 			a0 = c.fresh("alloc0", "Int")
 			c.heap0[allocKey] = a0
 			c.heapSrt[allocKey] = "Int"
-			c.defs = append(c.defs, fmt.Sprintf("(assert (>= %s 0))", a0))
+			c.defs = append(c.defs, fmt.Sprintf("(assert (>= %s 0))", a0), epochEntry(a0))
 		}
+		// (only for objects that existed at entry: the fields of an object a callee allocates during the call are read
+		// from the same array when the callee's modifies clause does not name the field, and hold newer references)
+		// epochOf(r): the allocation counter when the call that allocated r returned (the entry counter for objects that
+		// existed at entry). A field that this function has not written still holds what it held then.
 		if isRefType(elem) {
-			c.defs = append(c.defs, fmt.Sprintf("(assert (forall ((r Int)) (! (<= (select %s r) %s) :pattern ((select %s r)))))", a, a0, a))
+			c.defs = append(c.defs, fmt.Sprintf("(assert (forall ((r Int)) (! (<= (select %s r) (epochOf r)) :pattern ((select %s r)))))", a, a))
 		} else if _, isSl := elem.Underlying().(*types.Slice); isSl {
-			c.defs = append(c.defs, fmt.Sprintf("(assert (forall ((r Int)) (! (and (<= (sl.arr (select %s r)) %s) (>= (sl.len (select %s r)) 0) (>= (sl.off (select %s r)) 0)) :pattern ((select %s r)))))", a, a0, a, a, a))
+			c.defs = append(c.defs, fmt.Sprintf("(assert (forall ((r Int)) (! (and (<= (sl.arr (select %s r)) (epochOf r)) (>= (sl.len (select %s r)) 0) (>= (sl.off (select %s r)) 0)) :pattern ((select %s r)))))", a, a, a, a))
 		}
+		_ = a0
 	}
 	return a
 }
@@ -474,10 +479,10 @@ func (c *Ctx) elemHeap(st *State, elem types.Type) (string, string) {
 				a0 = c.fresh("alloc0", "Int")
 				c.heap0[allocKey] = a0
 				c.heapSrt[allocKey] = "Int"
-				c.defs = append(c.defs, fmt.Sprintf("(assert (>= %s 0))", a0))
+				c.defs = append(c.defs, fmt.Sprintf("(assert (>= %s 0))", a0), epochEntry(a0))
 			}
 			for _, rp := range c.refPaths("(select (select "+h0+" a_r) i_r)", elem, 0) {
-				c.defs = append(c.defs, fmt.Sprintf("(assert (forall ((a_r Int) (i_r Int)) (! %s :pattern ((select (select %s a_r) i_r)))))", strings.ReplaceAll(rp, "$B", a0), h0))
+				c.defs = append(c.defs, fmt.Sprintf("(assert (forall ((a_r Int) (i_r Int)) (! %s :pattern ((select (select %s a_r) i_r)))))", strings.ReplaceAll(rp, "$B", "(epochOf a_r)"), h0))
 			}
 		}
 	}
@@ -507,6 +512,48 @@ func (c *Ctx) refPaths(term string, t types.Type, depth int) []string {
 		return out
 	}
 	return nil
+}
+
+// epochEntry / epochCall define epochOf for the objects that existed at entry and for those a call allocated.
+func epochEntry(a0 string) string {
+	return fmt.Sprintf("(assert (forall ((r Int)) (! (=> (<= r %s) (= (epochOf r) %s)) :pattern ((epochOf r)))))", a0, a0)
+}
+
+func epochCall(before, after string) string {
+	return fmt.Sprintf("(forall ((r Int)) (! (=> (and (> r %s) (<= r %s)) (= (epochOf r) %s)) :pattern ((epochOf r))))", before, after, after)
+}
+
+// guardBound instantiates the "$B" placeholder of a refPaths fact for a container of the entry heap: the bound a0 applies
+// only when the container (array / map reference guard) itself existed at entry.
+func guardBound(rp, guard, a0 string) string {
+	var out strings.Builder
+	for {
+		i := strings.Index(rp, "(<= ")
+		if i < 0 {
+			out.WriteString(rp)
+			return out.String()
+		}
+		// find the matching close paren of this "(<= ..." term
+		depth, j := 0, i
+		for ; j < len(rp); j++ {
+			if rp[j] == '(' {
+				depth++
+			} else if rp[j] == ')' {
+				depth--
+				if depth == 0 {
+					break
+				}
+			}
+		}
+		term := rp[i : j+1]
+		out.WriteString(rp[:i])
+		if strings.HasSuffix(term, " $B)") {
+			out.WriteString(fmt.Sprintf("(=> (<= %s %s) %s)", guard, a0, strings.ReplaceAll(term, "$B", a0)))
+		} else {
+			out.WriteString(term)
+		}
+		rp = rp[j+1:]
+	}
 }
 
 // eltFrame states the frame of an element heap in terms of the accessor, so that facts stated with elt carry over.
@@ -607,6 +654,17 @@ func (c *Ctx) globalConst(name string, t types.Type) string {
 	}
 	v := c.fresh("global_"+name, c.sortOf(t))
 	c.globals[name] = v
+	// a package-level variable is a constant of the call: what it refers to existed at entry
+	a0, ok := c.heap0[allocKey]
+	if !ok {
+		a0 = c.fresh("alloc0", "Int")
+		c.heap0[allocKey] = a0
+		c.heapSrt[allocKey] = "Int"
+		c.defs = append(c.defs, fmt.Sprintf("(assert (>= %s 0))", a0), epochEntry(a0))
+	}
+	for _, rp := range c.refPaths(v, t, 0) {
+		c.defs = append(c.defs, fmt.Sprintf("(assert %s)", strings.ReplaceAll(rp, "$B", a0)))
+	}
 	return v
 }
 
@@ -629,10 +687,10 @@ func (c *Ctx) mapHeaps(st *State, m *types.Map) (kd, kv, dom, val string) {
 				a0 = c.fresh("alloc0", "Int")
 				c.heap0[allocKey] = a0
 				c.heapSrt[allocKey] = "Int"
-				c.defs = append(c.defs, fmt.Sprintf("(assert (>= %s 0))", a0))
+				c.defs = append(c.defs, fmt.Sprintf("(assert (>= %s 0))", a0), epochEntry(a0))
 			}
 			for _, rp := range c.refPaths("(select (select "+v0+" m_r) k_r)", m.Elem(), 0) {
-				c.defs = append(c.defs, fmt.Sprintf("(assert (forall ((m_r Int) (k_r %s)) (! %s :pattern ((select (select %s m_r) k_r)))))", ks, strings.ReplaceAll(rp, "$B", a0), v0))
+				c.defs = append(c.defs, fmt.Sprintf("(assert (forall ((m_r Int) (k_r %s)) (! %s :pattern ((select (select %s m_r) k_r)))))", ks, strings.ReplaceAll(rp, "$B", "(epochOf m_r)"), v0))
 			}
 		}
 	}
@@ -1018,7 +1076,10 @@ func (fr *Frame) load(st *State, a Addr, pos token.Pos) Val {
 	if a.Local == nil && !a.Elem && a.Base != nil {
 		if key, _ := fr.ctx.heapKey(a.Base, a.Path[0]); true {
 			if _, written := st.heap[key]; !written {
-				bound = fr.allocTerm(fr.entry) // the field still holds its entry value
+				// the field still holds its entry value - if the object existed at entry; a field of an object allocated
+				// since (by a callee) holds what the callee stored there, which may be newer than the entry bound
+				fr.allocTerm(fr.entry)
+				bound = fmt.Sprintf("(epochOf %s)", a.Ref)
 			}
 		}
 	}
@@ -1150,7 +1211,7 @@ func (fr *Frame) allocTerm(st *State) string {
 	a := c.fresh("alloc0", "Int")
 	c.heap0[allocKey] = a
 	c.heapSrt[allocKey] = "Int"
-	c.defs = append(c.defs, fmt.Sprintf("(assert (>= %s 0))", a))
+	c.defs = append(c.defs, fmt.Sprintf("(assert (>= %s 0))", a), epochEntry(a))
 	return a
 }
 
@@ -1159,7 +1220,7 @@ func (fr *Frame) newRef(st *State, hint string) string {
 	c := fr.ctx
 	cur := fr.allocTerm(st)
 	r := c.fresh(hint, "Int")
-	fr.assume(st, fmt.Sprintf("(> %s %s)", r, cur))
+	fr.assume(st, fmt.Sprintf("(and (> %s %s) (= (epochOf %s) %s))", r, cur, r, r))
 	st.heap[allocKey] = r
 	return r
 }
@@ -2294,6 +2355,14 @@ func (fr *Frame) step(st *State, in ssa.Instruction) bool {
 				fr.setElemHeap(st, key, sl.Elem(), arr, fmt.Sprintf("(store %s %s %s)", arr, r, inner), r)
 				fr.vals[x] = Val{fmt.Sprintf("(mk-slice %s 0 (rcount %s))", r, v.T), x.Type()}
 			}
+		case from == "Slice" && to == "Str" && isByteSlice(x.X.Type()):
+			// string(b): a function of the bytes b holds (bstr: contents and length), so that two conversions of the same bytes agree
+			sl := x.X.Type().Underlying().(*types.Slice)
+			_, arr := c.elemHeap(st, sl.Elem())
+			r := c.fresh("conv", "Str")
+			fr.assume(st, fmt.Sprintf("(=> (= (sl.off %s) 0) (= %s (bstr (select %s (sl.arr %s)) (sl.len %s))))", v.T, r, arr, v.T, v.T))
+			fr.assume(st, fmt.Sprintf("(= (slen %s) (sl.len %s))", r, v.T))
+			fr.vals[x] = Val{r, x.Type()}
 		case from == "Int" && to == "Str":
 			// string(r): the UTF-8 encoding of the code point (1..4 bytes; U+FFFD, 3 bytes, for an invalid one)
 			fr.vals[x] = Val{fmt.Sprintf("(strofrune %s)", v.T), x.Type()}
@@ -2669,6 +2738,20 @@ func (fr *Frame) call(st *State, x *ssa.Call) bool {
 		fr.assume(st, fmt.Sprintf("(and (>= (- %s) (dscale %s)) (>= %s (- 2147483648)) (< %s 2147483648))", e, fr.val(x.Call.Args[0]).T, e, e))
 		setRes(Val{e, x.Type()})
 		return true
+	case "os.ReadFile":
+		// ghost file system: the bytes read are those of fsread(path) (assumption: the files do not change during one load)
+		vs := fr.opaqueResults(st, "readfile", x.Type())
+		pv := fr.val(x.Call.Args[0])
+		bt := x.Call.Signature().Results().At(0).Type().Underlying().(*types.Slice) // []byte, spelled as the signature spells it (heap keys go by the type's name)
+		r := fr.newRef(st, "readarr")
+		key, arr := c.elemHeap(st, bt.Elem())
+		inner := c.fresh("readinner", "(Array Int Int)")
+		fr.setElemHeap(st, key, bt.Elem(), arr, fmt.Sprintf("(store %s %s %s)", arr, r, inner), r)
+		fr.assume(st, fmt.Sprintf("(= (bstr %s (slen (fsread %s))) (fsread %s))", inner, pv.T, pv.T))
+		vs[0] = Val{fmt.Sprintf("(mk-slice %s 0 (slen (fsread %s)))", r, pv.T), x.Call.Signature().Results().At(0).Type()}
+		c.note("%s: os.ReadFile(p) returns the text fsread(p) of the ghost file system (files are assumed not to change during one load)", fr.fname)
+		setRes(vs...)
+		return true
 	case "strings.Repeat":
 		fr.obligeAt(st, "safety.repeat", "call", fmt.Sprintf("(>= %s 0)", fr.val(x.Call.Args[1]).T), x.Pos())
 		r := c.fresh("repeated", "Str")
@@ -2981,6 +3064,7 @@ func (fr *Frame) applyContract(st *State, x *ssa.Call, callee *ssa.Function, fc 
 		before := fr.allocTerm(st)
 		na := c.fresh("allocAfter", "Int")
 		fr.assume(st, fmt.Sprintf("(>= %s %s)", na, before))
+		fr.assume(st, epochCall(before, na))
 		st.heap[allocKey] = na
 		for _, r := range res {
 			fr.assumeAllocated(st, r, na)
@@ -3007,6 +3091,7 @@ func (fr *Frame) applyContract(st *State, x *ssa.Call, callee *ssa.Function, fc 
 		before := fr.allocTerm(st)
 		na := c.fresh("allocAfter", "Int")
 		fr.assume(st, fmt.Sprintf("(>= %s %s)", na, before))
+		fr.assume(st, epochCall(before, na))
 		st.heap[allocKey] = na
 		binds["$allocBefore"] = Val{before, types.Typ[types.Int]}
 		for _, r := range res {
@@ -3043,7 +3128,8 @@ func (fr *Frame) applyContract(st *State, x *ssa.Call, callee *ssa.Function, fc 
 		sv := fr.evalExpr(e, &Env{fr: fr, st: pre, old: pre, binds: binds, noLocals: true})
 		modElemArrs = append(modElemArrs, fmt.Sprintf("(sl.arr %s)", sv.T))
 		if !fr.writeAll {
-			fr.oblige(st, fmt.Sprintf("call[%s].frame.write_elem[%s]@%d", key, e, c.prog.Fset.Position(x.Pos()).Line), fr.elemWritePerm(Addr{Ref: fmt.Sprintf("(sl.arr %s)", sv.T)}), x.Pos())
+			// an empty slice has no element the callee could write in place
+			fr.oblige(st, fmt.Sprintf("call[%s].frame.write_elem[%s]@%d", key, e, c.prog.Fset.Position(x.Pos()).Line), fmt.Sprintf("(or (= (sl.len %s) 0) %s)", sv.T, fr.elemWritePerm(Addr{Ref: fmt.Sprintf("(sl.arr %s)", sv.T)})), x.Pos())
 		}
 	}
 	{
@@ -3109,6 +3195,15 @@ func (fr *Frame) opaqueResults(st *State, hint string, t types.Type) []Val {
 		vs = append(vs, v)
 	}
 	return vs
+}
+
+func isByteSlice(t types.Type) bool {
+	sl, ok := t.Underlying().(*types.Slice)
+	if !ok {
+		return false
+	}
+	b, ok := sl.Elem().Underlying().(*types.Basic)
+	return ok && b.Kind() == types.Uint8
 }
 
 // assumeAllocated: a reference (or slice) produced by a callee was allocated no later than bound.
